@@ -42,6 +42,8 @@ def subjects(tier):
         ('cc_perm', dict(starts=['a'], nodes=['x0', 'x1', 'y0', 'y1'], edges=[], incompat=[],
                          choices=[['X0', 'a', ['x0', 'x1']], ['X1', 'a', ['y0', 'y1']]], cc=[['PERMUTATION', ['X0', 'X1']]])),
     ]
+    out.append(('three_choices', dict(starts=['a'], nodes=['x0', 'x1', 'y0', 'y1', 'z0', 'z1'], edges=[], incompat=[],
+                                      choices=[['X0', 'a', ['x0', 'x1']], ['X1', 'a', ['y0', 'y1']], ['X2', 'a', ['z0', 'z1']]])))
     sp = S('one')
     sp['dv'] = {'D1': dict(anchor='o1', options=2), 'D2': dict(anchor='a', bounds=[0.0, 1.0])}
     sp['met'] = {'M1': dict(anchor='a', dir=-1, ref=None, type=None)}
@@ -126,6 +128,10 @@ def run_case(case):
                 len({len(g.get_option_nodes(c)) for c in sel[:2]}) == 1:
             for ct in ('LINKED', 'PERMUTATION'):
                 out.append((('constrain', ct), (lambda ct=ct: g.copy().constrain_choices(ChoiceConstraintType[ct], sel[:2]))))
+            # over-constraining (more choices than options): choices are left without any option
+            if len(sel) >= 3 and len({len(g.get_option_nodes(c)) for c in sel[:3]}) == 1:
+                for ct in ('UNORDERED_NOREPL', 'PERMUTATION'):
+                    out.append((('constrain3', ct), (lambda ct=ct: g.copy().constrain_choices(ChoiceConstraintType[ct], sel[:3]))))
         # store a value on a COPY (derive op): the copy's stored values must be its own, whatever the source already holds
         for n in sorted(g.des_var_nodes, key=b.name)[:2]:
             vals = [0, 1] if n.is_discrete else [float(n.bounds[0]), float(n.bounds[1])]
@@ -179,7 +185,7 @@ def run_case(case):
             for label, thunk in ops_for(live[idx], idx):
                 if stop[0]:
                     return
-                feats['op_' + {'copy': 'copy', 'confirmed': 'confirmed', 'sel': 'sel', 'conn': 'conn', 'constrain': 'constrain',
+                feats['op_' + {'copy': 'copy', 'confirmed': 'confirmed', 'sel': 'sel', 'conn': 'conn', 'constrain': 'constrain', 'constrain3': 'constrain',
                                'decode': 'decode', 'copyset': 'copyset'}[label[0]]] = 1
                 step = (idx, label)
                 try:
